@@ -359,18 +359,45 @@ class Body:
             for i in range(1, self.arg_count + 1):
                 d[i].append(("arg", i))
             refs = {}  # temp local -> (base local, is_mut) when temp = &[mut] place(base)
+            deref_stores = []
             for bb, blk in enumerate(self.blocks):
                 if blk["cleanup"]:
                     continue
                 for i, st in enumerate(blk["stmts"]):
                     if st["k"] in ("assign", "setdiscr"):
-                        d[st["lhs"]["l"]].append(("stmt", bb, i, st))
+                        lhs = st["lhs"]
+                        if lhs["p"] and lhs["p"][0] == "*" and lhs["l"] > self.arg_count:
+                            # a store through a temporary reference writes the referent, not the reference
+                            deref_stores.append((bb, i, st))
+                        else:
+                            d[lhs["l"]].append(("stmt", bb, i, st))
                         rv = st.get("rv") or {}
                         if "ref" in rv and rv.get("mut") and is_bare(st["lhs"]):
                             refs[st["lhs"]["l"]] = rv["ref"]["l"]
                 t = blk["term"]
                 if t["k"] == "call":
                     d[t["dest"]["l"]].append(("call", bb, t))
+            for (bb, i, st) in deref_stores:
+                l = st["lhs"]["l"]
+                bases = set()
+                if l in refs:
+                    bases.add(refs[l])
+                else:
+                    for rec in d.get(l, ()):
+                        if rec[0] == "call":
+                            for a in rec[2]["args"]:
+                                pl = op_place(a)
+                                if pl and is_bare(pl) and pl["l"] in refs:
+                                    bases.add(refs[pl["l"]])
+                        elif rec[0] == "stmt":
+                            rv = rec[3].get("rv") or {}
+                            src = rv.get("ref") or op_place(rv.get("use")) if ("ref" in rv or "use" in rv) else None
+                            if src is not None:
+                                bases.add(src["l"])
+                if not bases:
+                    bases.add(l)
+                for bl in bases:
+                    d[bl].append(("stmt", bb, i, st))
             # a call receiving `&mut X` may write X
             for bb, blk in enumerate(self.blocks):
                 if blk["cleanup"]:
